@@ -7,6 +7,8 @@ import (
 	"verifharness/hx"
 
 	"github.com/iotaledger/hive.go/ds/bytesfilter"
+	"github.com/iotaledger/hive.go/ds/shrinkingmap"
+	"github.com/iotaledger/hive.go/ds/types"
 )
 
 type bfID [32]byte
@@ -107,6 +109,31 @@ func (w *bfWorld) exec(f []string) string {
 		}
 
 		return strconv.FormatBool(got)
+	case "state":
+		return stateOf(func() string {
+			raw := fieldAs[[]bfID](w.f, "identifiers")
+			ids := make([]int, 0, len(raw))
+			for _, id := range raw {
+				ids = append(ids, int(id[0])|int(id[31])<<8)
+			}
+			known := []int{}
+			for _, id := range fieldAs[*shrinkingmap.ShrinkingMap[bfID, types.Empty]](w.f, "knownIdentifiers").Keys() {
+				known = append(known, int(id[0])|int(id[31])<<8)
+			}
+			known = sortedInts(known)
+			size := fieldAs[int](w.f, "size")
+			// the slice is exactly the last `size` accepted identifiers, oldest first; the set holds the same elements
+			if !eqInts(ids, w.recent) || size != w.size {
+				w.fail("last-n-distinct", fmt.Sprintf("the identifier slice is %v (size %d), the last %d accepted identifiers are %v", ids, size, w.size, w.recent),
+					w.sig("state", "slice-vs-last-n"))
+			}
+			if !eqInts(known, sortedInts(w.recent)) {
+				w.fail("last-n-distinct", fmt.Sprintf("the identifier set is %v, the last %d accepted identifiers are %v", known, w.size, w.recent),
+					w.sig("state", "set-vs-last-n"))
+			}
+
+			return fmt.Sprintf("size=%d ids=%s known=%s", size, showInts(ids), showInts(known))
+		})
 	case "all":
 		u, _ := strconv.Atoi(f[1])
 		out := []string{}
@@ -163,12 +190,16 @@ var bfContainer = container{
 			default:
 				ops = append(ops, fmt.Sprintf("bf all %d", bfUniverse))
 			}
+			if rng.Chance(1, 3) {
+				ops = append(ops, "bf state")
+			}
 		}
+		ops = append(ops, "bf state")
 
 		return ops
 	},
 	corpus: [][]string{
-		{"bf new 2", "bf add 1", "bf add 2", "bf add 1", "bf add 3", "bf has 1", "bf add 1", "bf all 6"},
+		{"bf new 2", "bf add 1", "bf add 2", "bf add 1", "bf add 3", "bf has 1", "bf add 1", "bf all 6", "bf state"},
 		{"bf new 1", "bf addb 4", "bf hasb 4", "bf add 5", "bf has 4", "bf all 6"},
 		{"bf new 0", "bf has 1", "bf add 1", "bf all 6"},
 	},
